@@ -14,6 +14,7 @@ from . import common
 
 SPEC = {
     "level": "exploration",
+    "suite_under_monitor": True,
     "technique": "differential runtime monitor on graph_from_tucan against an independent reference reader (accept/reject, exception type, labelled graph)",
     "rule": ("strings: valid sentences over all 118 symbols (random formulas in Hill order, random tuples/attribute blocks), their single-token insertions, deletions, "
              "replacements, transpositions over the token alphabet {symbols, digits, 10, ( ) - : , = /, mass, rad, blank, newline, lower-case, non-ASCII dashes/digits}, "
